@@ -11,6 +11,7 @@ import (
 	"gitlab.com/gomidi/midi/v2/smf"
 	"gitlab.com/gomidi/midi/v2/zverif/ev"
 	"gitlab.com/gomidi/midi/v2/zverif/gen"
+	"gitlab.com/gomidi/midi/v2/zverif/live"
 	"gitlab.com/gomidi/midi/v2/zverif/ref/smfref"
 	"pgregory.net/rapid"
 )
@@ -278,10 +279,44 @@ func TestEnumShortStrings(t *testing.T) {
 // ---- longer strings -----------------------------------------------------------------------
 
 var long = ev.NewCheck("C08", "strings-4-64",
-	"rapid: byte strings of length 4..64 biased to start with each status class (channel kinds, F0..F7, real-time, FF + meta type + VLQ length + payload with a declared text length <= 2^16), plus every message produced by the meta constructors, by MetaUndefined(any type, payload) and by the reader on byte-level generated files; same oracle; non-trivial = first byte >= 0x80; distinct by bytes",
+	"rapid: byte strings of length 4..64 biased to start with each status class (channel kinds, F0..F7, real-time, FF + meta type + VLQ length + payload with a declared text length <= 2^16; FF + type + a run of 1..20 continuation bytes as length field; complete frames wrapped in real-time bytes; meta events whose type byte is a status byte and whose payload ends in F7/FF; two frames glued together; runs of one byte class; universal sysex messages such as MTC full frame and MMC commands), plus every message produced by the meta constructors, by MetaUndefined(any type, payload) and by the reader on byte-level generated files; same oracle; non-trivial = first byte >= 0x80; distinct by bytes",
 	func(t *rapid.T) Case {
 		var b []byte
-		switch rapid.IntRange(0, 6).Draw(t, "shape") {
+		frame := func() []byte {
+			switch rapid.IntRange(0, 3).Draw(t, "frameKind") {
+			case 0:
+				return gen.SysexMessage(t, 20)
+			case 1:
+				return gen.ChannelMessage(t, nil)
+			case 2:
+				return gen.MetaMessage(t, 20)
+			default:
+				return rapid.SampledFrom([][]byte{{0xF1, 0x05}, {0xF2, 0x01, 0x02}, {0xF3, 0x07}, {0xF6}, {0xF0, 0xF7}, {0xF7}, {0xF0}}).Draw(t, "sysCommonFrame")
+			}
+		}
+		switch rapid.IntRange(0, 12).Draw(t, "shape") {
+		case 12: // universal sysex messages whose content resembles other message classes
+			b = append([]byte{}, rapid.SampledFrom(live.WellKnownSysex(rapid.SampledFrom([]byte{0x7F, 0, 0x10}).Draw(t, "dev"))).Draw(t, "wellKnownSysex")...)
+		case 7: // meta-like whose length field is a long run of continuation bytes (over-long VLQ)
+			typ := rapid.OneOf(rapid.SampledFrom([]byte{1, 2, 3, 4, 5, 6, 7, 8, 9, 0x7F, 0x51, 0x58, 0x59, 0x2F, 0x00, 0x20, 0x21, 0x54}), rapid.Byte()).Draw(t, "metaType")
+			b = []byte{0xFF, typ}
+			b = append(b, rapid.SliceOfN(rapid.ByteRange(0x80, 0xFF), 1, 20).Draw(t, "continuationRun")...)
+			if rapid.Bool().Draw(t, "terminated?") {
+				b = append(b, rapid.ByteRange(0, 0x7F).Draw(t, "lastLengthByte"))
+				b = append(b, rapid.SliceOfN(rapid.Byte(), 0, 12).Draw(t, "payload")...)
+			}
+		case 8: // a complete frame wrapped in real-time bytes
+			b = rapid.SliceOfN(rapid.ByteRange(0xF8, 0xFF), 1, 3).Draw(t, "realtimePrefix")
+			b = append(b, frame()...)
+			b = append(b, rapid.SliceOfN(rapid.ByteRange(0xF8, 0xFF), 0, 2).Draw(t, "realtimeSuffix")...)
+		case 9: // a meta event whose type byte or payload looks like another message
+			typ := rapid.SampledFrom([]byte{0xF0, 0xF7, 0xFF, 0x90, 0xB0, 0xF8, 0xF1, 0xF2, 0x80, 0xC5}).Draw(t, "statusLikeType")
+			b = smf.MetaUndefined(typ, append(rapid.SliceOfN(rapid.Byte(), 0, 8).Draw(t, "payload"), rapid.SampledFrom([]byte{0xF7, 0xFF, 0x00, 0x2F}).Draw(t, "lastPayloadByte")))
+		case 10: // two frames glued together
+			b = append(frame(), frame()...)
+		case 11: // a run of one byte class
+			lo := rapid.SampledFrom([]byte{0x80, 0xF0, 0xF7, 0xF8, 0xFF}).Draw(t, "classLow")
+			b = rapid.SliceOfN(rapid.ByteRange(lo, 0xFF), 4, 40).Draw(t, "classRun")
 		case 0:
 			b = rapid.SliceOfN(rapid.Byte(), 4, 64).Draw(t, "random")
 		case 1:
